@@ -388,7 +388,20 @@ func histories(t *testing.T, shard int) {
 						hist = append(hist, opRec{Op: "collect-parked-while-pinning", File: gi})
 						var mid *fsim.State
 						chunkOnly := rng.Intn(3) > 0
-						parked := parkedCollect(t, w, func() {
+						// the run is parked after candidate selection, or (1 in 3) at the moment its first
+						// candidate is handed to chunkinfo
+						park := func(during func()) bool { return parkedCollect(t, w, during) }
+						if rng.Intn(3) == 0 {
+							hist[len(hist)-1].Op = "collect-parked-at-handover-while-pinning"
+							park = func(during func()) bool {
+								p := fsim.ParkedCollect(w.N, "delfile", during, func(m string) { t.Fatal(m + " (inconclusive)") })
+								if p {
+									run.Stat("parked_collections_at_handover", 1)
+								}
+								return p
+							}
+						}
+						parked := park(func() {
 							if chunkOnly {
 								// pin ONE data chunk of a cached file through POST /chunks with the pin
 								// header (an upload of a chunk the node already holds)
